@@ -4,18 +4,23 @@ import (
 	"bytes"
 	"encoding/json"
 	"fmt"
+	"reflect"
 	"strings"
 	"testing"
 
 	"github.com/CrowdStrike/csproto"
 	gogojson "github.com/gogo/protobuf/jsonpb"
 	gogo "github.com/gogo/protobuf/proto"
+	gogotypes "github.com/gogo/protobuf/types"
 	"github.com/golang/protobuf/jsonpb"
 	golang "github.com/golang/protobuf/proto"
 	"google.golang.org/protobuf/encoding/protojson"
 	"google.golang.org/protobuf/proto"
 	"google.golang.org/protobuf/reflect/protoreflect"
 	"google.golang.org/protobuf/types/dynamicpb"
+	"google.golang.org/protobuf/types/known/structpb"
+	"google.golang.org/protobuf/types/known/timestamppb"
+	"google.golang.org/protobuf/types/known/wrapperspb"
 	"pgregory.net/rapid"
 
 	"verif/harness/internal/ev"
@@ -329,7 +334,21 @@ func injectKey(obj []byte) []byte {
 
 func jsonNilProbes() *ev.Failure {
 	// a nil message marshals to nothing; unmarshaling into nil is an error
-	for name, v := range map[string]any{"untyped-nil": nil, "typed-nil-gv2": (*durationpbAlias)(nil)} {
+	probes := map[string]any{"untyped-nil": nil, "typed-nil-gv2": (*durationpbAlias)(nil),
+		// well-known types that implement json.Marshaler / Unmarshaler themselves
+		"typed-nil-structpb-Struct": (*structpb.Struct)(nil), "typed-nil-structpb-ListValue": (*structpb.ListValue)(nil), "typed-nil-structpb-Value": (*structpb.Value)(nil),
+		"typed-nil-timestamppb": (*timestamppb.Timestamp)(nil), "typed-nil-wrapperspb": (*wrapperspb.StringValue)(nil),
+		"typed-nil-gogo-Struct": (*gogotypes.Struct)(nil), "typed-nil-gogo-Timestamp": (*gogotypes.Timestamp)(nil), "typed-nil-gogo-Value": (*gogotypes.Value)(nil)}
+	loadCorpus()
+	seen := map[string]bool{}
+	for _, mt := range jsonTypes() { // one typed nil per (variant, file)
+		k := mt.Info.Variant + "/" + mt.Info.File
+		if !seen[k] {
+			seen[k] = true
+			probes["typed-nil-"+mt.Key()] = reflect.Zero(reflect.TypeOf(mt.New())).Interface()
+		}
+	}
+	for name, v := range probes {
 		out, err := csproto.JSONMarshaler(v).MarshalJSON()
 		if out != nil || err != nil {
 			return ev.Failf("C18/nil-marshal/"+name, "JSONMarshaler(nil).MarshalJSON() = %q, %v; documented: nil, nil", out, err)
@@ -369,7 +388,7 @@ func jsonTypes() []*MsgType {
 	return out
 }
 
-const ruleC18 = "case = (message type of the corpus for gogo / Google v1 (legacy) / Google v2, plain and fast-marshal; value incl. enums, 64-bit integers, bytes, maps, oneofs, well-known types; the 2^3 marshal option combinations; indent in {\"\", \" \", \"  \", \"\\t\", \" \\t\"}; JSON with/without an injected unknown key x AllowUnknownFields; JSON with/without a required field - the message's own or one of a child, incl. proto2 children of a proto3 message - x AllowPartialMessages (Google v2); 1 in 3 right after a MarshalJSON call that the runtime refuses (out-of-range Timestamp / Duration, also as a later list element; required field missing in a child)); oracle: json.Valid, adapter round trip == original, the OWNING runtime's JSON decoder accepts the output and decodes the original, structural probes for every option, nil => (nil, nil), unmarshal into nil => error; non-trivial = message with >= 1 enum / 64-bit / bytes / map field set and >= 1 option set; distinct by case content"
+const ruleC18 = "case = (message type of the corpus for gogo / Google v1 (legacy) / Google v2, plain and fast-marshal; value incl. enums, 64-bit integers, bytes, maps, oneofs, well-known types; the 2^3 marshal option combinations; indent in {\"\", \" \", \"  \", \"\\t\", \" \\t\"}; JSON with/without an injected unknown key x AllowUnknownFields; JSON with/without a required field - the message's own or one of a child, incl. proto2 children of a proto3 message - x AllowPartialMessages (Google v2); 1 in 3 right after a MarshalJSON call that the runtime refuses (out-of-range Timestamp / Duration, also as a later list element; required field missing in a child)); oracle: json.Valid, adapter round trip == original, the OWNING runtime's JSON decoder accepts the output and decodes the original, structural probes for every option, nil => (nil, nil) (untyped nil and typed nil pointers of every corpus package and of the well-known types that implement json.Marshaler themselves), unmarshal into nil => error; non-trivial = message with >= 1 enum / 64-bit / bytes / map field set and >= 1 option set; distinct by case content"
 
 func TestC18(t *testing.T) {
 	rec := ev.New("C18", ruleC18)
